@@ -1015,6 +1015,9 @@ def parse_tree_to_objgraph(
                 models = list(
                     filter(lambda x: hasattr(x, "_tx_reference_resolver"), models)
                 )
+                # the models built by this load (the others were cached in
+                # a repository by earlier loads)
+                parser._models_of_load = models
 
                 resolved_count = 1
                 unresolved_count = 1
